@@ -349,7 +349,8 @@ class OpsWorld(World):
                 continue
             if focus in ("prox", "mixed") and r < 0.45 or (focus == "ops" and r < 0.22):
                 sched.append({"op": "prox", "spec": opgen.gen_prox(rng), "alpha": round(10 ** rng.uniform(-1, 1), 3),
-                              "input": buf(), "twice": rng.random() < 0.5})
+                              "input": buf(), "twice": rng.random() < 0.5,
+                              "alpha_array": rng.getrandbits(32) if rng.random() < 0.2 else None})
                 continue
             if focus in ("fn", "mixed") and r < 0.75 or (focus in ("ops", "prox") and r < 0.32):
                 sched.append({"op": "fn", "fn": opgen.gen_fn(rng)})
@@ -611,8 +612,17 @@ class OpsWorld(World):
                 own("in", x)
                 site = "prox." + spec["cls"]
                 classes.add(site)
+                alpha = s["alpha"]
+                if s.get("alpha_array") is not None and spec["cls"] in ("L1Reg", "L2Reg", "NoOp", "BoxConstraint"):
+                    # array-valued step (as PrimalDualHybridGradient passes with array tau / sigma)
+                    ga = np.random.Generator(np.random.PCG64(s["alpha_array"]))
+                    alpha = np.round(ga.uniform(0.1, 2.0, size=tuple(P.shape)), 3)
+                    if x.dtype in (np.dtype("float32"), np.dtype("complex64")):
+                        alpha = alpha.astype(np.float32)
+                    own("alpha", alpha)
+                    stats["buggify.prox_array_step"] += 1
                 try:
-                    o1 = P(s["alpha"], x)
+                    o1 = P(alpha, x)
                 except Exception:
                     stats["probes.rejected"] += 1
                     stats["rejected." + site] += 1
@@ -626,7 +636,7 @@ class OpsWorld(World):
                     o1c = o1.copy()
                     own("out", o1)
                     if s.get("twice"):
-                        o2 = P(s["alpha"], x)
+                        o2 = P(alpha, x)
                         check_ledger(step, site)
                         ok, d = close(o2, o1c, is_single(x, o1c))
                         if not ok:
